@@ -381,12 +381,52 @@ class Model:
                 else:
                     ci.external_bases.append(b)
         for ci in self.classes.values():
+            self._synthesize_members(ci)
             if ci.is_enum:
                 for name, value in ci.class_assigns.items():
-                    if not name.startswith('_'):
+                    if not name.startswith('_') and name not in ci.methods:
                         ci.enum_members[name] = value
             if not ci.is_record and not any(c.is_record for c in ci.mro()):
                 ci.own_fields = []  # plain classes have no declared fields
+
+    def _synthesize_members(self, ci: ClassInfo):
+        """class attributes bound to a function built by a module-level factory - `name = factory('CONST')` where the
+        factory defines a nested function and returns it, or returns property(<it>) - are methods / properties of the
+        class: the nested function with the factory's parameters replaced by the constant arguments"""
+        import copy
+        mod = ci.module
+        for name, val in list(ci.class_assigns.items()):
+            if name in ci.methods or not (isinstance(val, ast.Call) and isinstance(val.func, ast.Name) and not val.keywords and val.args
+                                          and all(isinstance(a, ast.Constant) for a in val.args)):
+                continue
+            r = self.resolve_name(mod, val.func.id)
+            if not r or r[0] != 'func':
+                continue
+            fac = r[1].node
+            nested = {n.name: n for n in fac.body if isinstance(n, ast.FunctionDef)}
+            rets = [n for n in fac.body if isinstance(n, ast.Return)]
+            if len(rets) != 1 or rets[0].value is None:
+                continue
+            rv = rets[0].value
+            kind = 'method'
+            if isinstance(rv, ast.Call) and isinstance(rv.func, ast.Name) and rv.func.id == 'property' and len(rv.args) == 1 and isinstance(rv.args[0], ast.Name):
+                kind, rv = 'property', rv.args[0]
+            if not (isinstance(rv, ast.Name) and rv.id in nested):
+                continue
+            params = [a.arg for a in fac.args.posonlyargs + fac.args.args]
+            if len(params) != len(val.args):
+                continue
+            binding = dict(zip(params, val.args))
+            node = copy.deepcopy(nested[rv.id])
+
+            class _Sub(ast.NodeTransformer):
+                def visit_Name(self, n):
+                    if isinstance(n.ctx, ast.Load) and n.id in binding:
+                        return ast.copy_location(ast.Constant(binding[n.id].value), n)
+                    return n
+            node = ast.fix_missing_locations(_Sub().visit(node))
+            node.name = name
+            ci.methods[name] = FunctionInfo(name, f'{ci.name}.{name}', r[1].module, node, ci, kind, ['property'] if kind == 'property' else [])
 
     # ------------------------------------------------------------ resolution
     def resolve_name(self, mod: ModuleInfo, name: str, _depth: int = 0):
